@@ -6,7 +6,7 @@ CONSTANTS
   DenseN = @DENSEN@
   AbsentW = 0
   Emit = @EMIT@
-INVARIANTS TypeOK Closed NoSelf Canon Mirror Symm Between WeightOK DenseNoAbsent RevLaw ViewBase ViewUndirect ViewComplement ViewWeight EmitState
+INVARIANTS TypeOK Closed NoSelf Canon Mirror Symm Between WeightOK DenseNoAbsent RevLaw ViewBase ViewUndirect ViewComplement EmitState
 PROPERTIES PanicLeavesUnchanged RemoveNodeExact
 VIEW View
 CHECK_DEADLOCK FALSE
